@@ -84,8 +84,8 @@ Definition pre_state (o : op) (old : version) : disk :=
   end.
 
 (* storage.Get on one name after a restart: no file - miss; no metadata - the file is removed, miss;
-   metadata and no Content-Length in the stored head - the recorded size must be the file's, else
-   removed; with a Content-Length the comparison in the code can never fail (err != nil && n > 0) *)
+   with metadata the file's size must be the Content-Length of the stored head, or without one the
+   size recorded in the metadata, else the file is removed *)
 Inductive got := Miss | Hit (v : version) (data : str).
 
 Definition recover (d : disk) (s : slot) : got * disk :=
@@ -95,8 +95,7 @@ Definition recover (d : disk) (s : slot) : got * disk :=
     match f_meta f with
     | None => (Miss, ddel d s)
     | Some (v, n) =>
-      if v_has_cl v then (Hit v (f_data f), d)
-      else if Z.eqb (slen (f_data f)) n then (Hit v (f_data f), d) else (Miss, ddel d s)
+      if Z.eqb (slen (f_data f)) (if v_has_cl v then slen (v_body v) else n) then (Hit v (f_data f), d) else (Miss, ddel d s)
     end
   end.
 
